@@ -191,7 +191,20 @@ def run(ctx, repo, tier):
             okn = okn and bool(bdefs) and "split('\"')" in src(bdefs[0].value).replace('split("\\"")', "split('\"')")
         ctx.check(okn, "PAIRIO", "C20.legend.text", "the column name is the text between the quotes of the legend line", gc.where,
                   src(app[0])[:100] if app else "", witness="legend text is not the quoted part")
-        ctx.check(bool(app) and src(app[0].func.value) == "result", "ORD", "C20.legend.order", "legends are appended in file order", gc.where, witness="")
+        # the list the legends are appended to is the one that is returned, and nothing re-orders it
+        rets = [n.value for n in ast.walk(gc.node) if isinstance(n, ast.Return) and n.value is not None]
+        ret_names = {r.id for r in rets if isinstance(r, ast.Name)}
+        reorder = [n for n in ast.walk(gc.node) if isinstance(n, ast.Call) and (
+            (isinstance(n.func, ast.Name) and n.func.id in ("sorted", "reversed", "set")) or
+            (isinstance(n.func, ast.Attribute) and n.func.attr in ("sort", "reverse", "insert")))]
+        if reorder:
+            ctx.violate("ORD", "C20.legend.order", "the list of column names is re-ordered after the legends were read in file order", gc.where,
+                        src(reorder[0])[:100], witness="column k of the table no longer carries the k-th legend")
+        elif app and isinstance(app[0].func.value, ast.Name) and app[0].func.value.id in ret_names:
+            ctx.ok("ORD", "C20.legend.order", "legends are appended in file order to the returned list", gc.where)
+        else:
+            ctx.inconclusive("ORD", "C20.legend.order", "accumulation of the legend names not recognised", gc.where,
+                             witness=src(app[0])[:80] if app else "no append")
     # the scan may only stop at the end of the header: any other exit that depends on the number of names found so far must leave
     # room for the time column plus ten legends
     file_loops = [n for n in ast.walk(gc.node) if isinstance(n, ast.For) and not (isinstance(n.iter, ast.Call) and isinstance(n.iter.func, ast.Name) and n.iter.func.id == "range")]
